@@ -238,6 +238,9 @@ func (m *Machine) runFrame(fr *frame) Value {
 				case *sym.Bool:
 					t = m.Branch(cv)
 				}
+				if m.cfg.TraceIf != nil {
+					fmt.Fprintf(m.cfg.TraceIf, "%s b%d %v\n", fr.fn.Name(), block.Index, t)
+				}
 				if t {
 					next = block.Succs[0]
 				} else {
